@@ -42,6 +42,7 @@ func runOne(key string, j jobT, r *vp.Replay, seed uint64, random bool) {
 		emit(o)
 		return
 	}
+	all.ResetState()
 	vp.Reset(r, seed, random)
 	p := vp.Run(func() { e(j.Args) })
 	o.Failures, o.Reached, o.Observed, o.AssumeFailed = vp.Failures, vp.Reached, vp.Observed, vp.AssumeFailed
